@@ -30,6 +30,8 @@ def PropOp(obj, name, op, v): return nd("propop", s=name, s2=op, kids=[obj, v])
 def Index(a, i): return nd("index", kids=[a, i])
 def IndexSet(a, i, v): return nd("indexset", kids=[a, i, v])
 def List(items): return nd("list", kids=items)
+def Tuple(items): return nd("tuple", kids=items)
+def MapLit(pairs): return nd("map", kids=[x for kv in pairs for x in kv])
 def Interp(parts): return nd("interp", kids=parts)          # parts: expressions; string parts are Str nodes
 def Param(name): return nd("param", s=name)
 def Lambda(params, body): return nd("lambda", s="lambda", s2="fun", n=len(params), kids=[Param(p) for p in params] + [body])
@@ -132,7 +134,7 @@ class Printer:
     # expressions return text; statements emit lines
     def atom_like(self, n):
         return n["k"] in ("nil", "true", "false", "num", "str", "var", "self", "call", "invoke", "superinvoke", "prop",
-                          "index", "list", "interp") and not (n["k"] == "num" and n["n"] < 0)
+                          "index", "list", "interp", "tuple", "map") and not (n["k"] == "num" and n["n"] < 0)
 
     def sub(self, n, parent_prec=0, right=False):
         t = self.expr(n)
@@ -179,6 +181,10 @@ class Printer:
         if k == "index": return f"{self.callee(n['kids'][0])}[{self.expr(n['kids'][1])}]"
         if k == "indexset": return f"{self.callee(n['kids'][0])}[{self.expr(n['kids'][1])}] = {self.expr(n['kids'][2])}"
         if k == "list": return "[" + self.args(n["kids"]) + "]"
+        if k == "tuple": return "(" + self.args(n["kids"]) + ("," if len(n["kids"]) == 1 else "") + ")"
+        if k == "map":
+            kids = n["kids"]
+            return "{" + ", ".join(f"{self.expr(kids[i])}: {self.expr(kids[i + 1])}" for i in range(0, len(kids), 2)) + "}"
         if k == "interp":
             out = '"'
             for part in n["kids"]:
